@@ -25,6 +25,9 @@ type histParams struct {
 	Late        bool // a second driver sends a late message after quiescence (probe)
 	WaitCtx     bool // drivers wait on every stop context
 	Bystander   bool
+	Watch       bool   // a watcher thread per stop request observes the target the moment the context is done
+	SlowStop    bool   // the receiver yields inside its Stopped handler (a handler that takes a moment)
+	StopInStop  int    // 1/2: while the receiver is inside its final Stopped handler another thread issues a Poison/Stop for it (blocking hand-off)
 	Child       bool   // incarnation 1 spawns a child in its Started handler
 	StopPanics  bool   // the receiver panics (once) while handling Stopped
 	LC          string // lifecycle handlers that panic once: comma separated "<incarnation><I|S>", e.g. "2S" = Started of incarnation 2
@@ -54,6 +57,15 @@ func (hp histParams) String() string {
 	if hp.Child {
 		lc += "child"
 	}
+	if hp.Watch {
+		lc += "watch"
+	}
+	if hp.SlowStop {
+		lc += "slowstop"
+	}
+	if hp.StopInStop != 0 {
+		lc += fmt.Sprintf("stopinstop%d", hp.StopInStop)
+	}
 	return fmt.Sprintf("%s_r%dd%dmode%dmw%d%s", hp.Hist, hp.MaxRestarts, d, hp.Mode, hp.NMW, lc)
 }
 
@@ -74,6 +86,30 @@ type histRun struct {
 	issued   bool
 	lcDone   map[string]bool
 	stopPaniced bool
+	stopInStopDone bool
+	ctxObs   []string // what was wrong at the moment a stop context was observed done
+}
+
+// watch starts a thread that waits for the stop context and records, the moment it finds it
+// done, whether the target has handled its final Stopped and is unregistered by then.
+func (h *histRun) watch(e *actor.Engine, ctx context.Context, kind byte, n int) {
+	vsched.Go("ctx-watcher", func() {
+		vsched.Recv(ctx.Done())
+		reg := e.Registry.GetPID("a", "1") != nil
+		stopped := false
+		for _, ev := range h.k.Recv("A") {
+			if ev.Msg == "Stopped" && ev.Inc == h.k.Incs("A") {
+				stopped = true
+			}
+		}
+		vsched.Touch("ctxobs")
+		if reg {
+			h.ctxObs = append(h.ctxObs, fmt.Sprintf("context of %c request #%d done while the target is still registered", kind, n))
+		}
+		if !stopped {
+			h.ctxObs = append(h.ctxObs, fmt.Sprintf("context of %c request #%d done before the target handled its final Stopped", kind, n))
+		}
+	})
 }
 
 func (h *histRun) issue(i int, e *actor.Engine) {
@@ -85,11 +121,17 @@ func (h *histRun) issue(i int, e *actor.Engine) {
 		h.ctxs = append(h.ctxs, ctx)
 		h.ctxKind = append(h.ctxKind, 'P')
 		h.ctxDone = append(h.ctxDone, ctx.Err() != nil)
+		if h.hp.Watch {
+			h.watch(e, ctx, 'P', len(h.ctxs))
+		}
 	case 'S':
 		ctx := e.Stop(h.pid)
 		h.ctxs = append(h.ctxs, ctx)
 		h.ctxKind = append(h.ctxKind, 'S')
 		h.ctxDone = append(h.ctxDone, ctx.Err() != nil)
+		if h.hp.Watch {
+			h.watch(e, ctx, 'S', len(h.ctxs))
+		}
 	}
 }
 
@@ -126,6 +168,34 @@ func (h *histRun) behave(k *Kit, c *actor.Context, inc int) {
 			}
 		}
 	case actor.Stopped:
+		if h.hp.SlowStop {
+			vsched.Yield()
+		}
+		if h.hp.StopInStop != 0 && !h.stopInStopDone {
+			// a second party asks for the stop while this handler is running: its context must not be
+			// done before this handler has returned and the actor is unregistered
+			h.stopInStopDone = true
+			back := make(chan struct{})
+			e := c.Engine()
+			vsched.Go("second-stopper", func() {
+				var ctx context.Context
+				kind := byte('P')
+				if h.hp.StopInStop == 1 {
+					ctx = e.Poison(h.pid)
+				} else {
+					ctx, kind = e.Stop(h.pid), 'S'
+				}
+				h.ctxs = append(h.ctxs, ctx)
+				h.ctxKind = append(h.ctxKind, kind)
+				h.ctxDone = append(h.ctxDone, ctx.Err() != nil)
+				if ctx.Err() != nil {
+					vsched.Touch("ctxobs")
+					h.ctxObs = append(h.ctxObs, fmt.Sprintf("context of the %c request issued while the target was inside its Stopped handler was done when the call returned: before the target handled Stopped, while it is still registered", kind))
+				}
+				vsched.Send(back, struct{}{})
+			})
+			vsched.Recv(back)
+		}
 		if h.hp.StopPanics && !h.stopPaniced {
 			h.stopPaniced = true
 			panic("in the Stopped handler")
@@ -482,6 +552,14 @@ func crashBehindPoison(hist string) bool {
 func histTail(h *histRun, ref histRef, ended bool, count map[int]int) []vsched.Violation {
 	var vs []vsched.Violation
 	k, hp := h.k, h.hp
+	// what the watchers saw the moment a context was done
+	for _, o := range h.ctxObs {
+		sig := "stop/ctx-done-before-stopped-handled"
+		if strings.Contains(o, "still registered") {
+			sig = "stop/ctx-done-while-still-registered"
+		}
+		vs = append(vs, V(sig, "history %s: %s; log: %s", hp, o, k.LogString()))
+	}
 	// stop contexts
 	for i, ctx := range h.ctxs {
 		if ctx.Err() == nil {
@@ -624,6 +702,11 @@ func init() {
 			base := histParams{MaxRestarts: 3, Delay: delay, Mode: mode, Bystander: true}
 			name := fmt.Sprintf("C05/hist/len3-mode%d-delay%v", mode, delay)
 			vq := mk(crashHists(3, 3), base)
+			for _, hs := range []string{"mxm", "xmm", "xxm"} { // the same with a middleware chain in front of the receiver
+				p := base
+				p.Hist, p.NMW = hs, 1
+				vq = append(vq, p)
+			}
 			Register(&Job{Name: name, Prop: "C05", Bound: 1, BoundT: 2, Budget: 40, BudgetT: 600,
 				Desc: fmt.Sprintf("all %d histories over {m,x,X} of length<=3 with >=1 crash (MaxRestarts 3, restart delay %v), issued %s; bystander actor + monitor", len(vq), delay, map[int]string{0: "from the actor's own Started handler (one batch)", 1: "by a driver thread racing with spawn and worker"}[mode]),
 				Make: func() vsched.Instance { return histInstance(vq, histOracle) }})
@@ -655,6 +738,47 @@ func init() {
 		Register(&Job{Name: fmt.Sprintf("C05/hist/lifecycle-handler-panics-seq-mode%d", mode), Prop: "C05", Tier: "thorough", Bound: 1, BoundT: 2, Budget: 40, BudgetT: 900,
 			Desc: fmt.Sprintf("%d pairs incl. two failing lifecycle handlers in a row and restart delay >0", len(vt)),
 			Make: func() vsched.Instance { return histInstance(vt, histOracle) }})
+	}
+
+	// C03: the inbox of an actor whose FIRST start fails in a lifecycle handler (recovered on the spawning
+	// goroutine, before the inbox was ever started) must still be opened by the start that succeeds.
+	{
+		var v []histParams
+		for _, mode := range []int{0, 1} {
+			for _, lc := range []string{"1I", "1S", "1S,2S", "1I,2I"} {
+				for _, h := range []string{"m", "mm", "xm"} {
+					v = append(v, histParams{Hist: h, MaxRestarts: 4, Mode: mode, LC: lc}, histParams{Hist: h, MaxRestarts: 4, Mode: mode, LC: lc, Delay: true})
+				}
+			}
+		}
+		Register(&Job{Name: "C03/hist/first-start-fails", Prop: "C03", Bound: 1, BoundT: 2, Budget: 40, BudgetT: 600,
+			Desc: fmt.Sprintf("%d variants: Initialized/Started of the first one or two incarnations panic (the first start fails on the spawning goroutine, before the inbox is opened), restart delay 0 and >0, 1-2 messages sent before or after the spawn returns: every message is processed by the incarnation that starts", len(v)),
+			Make: func() vsched.Instance { return histInstance(v, histOracle) }})
+	}
+
+	// C05/C06: the receiver panics AGAIN while it is told Stopped after a crash (the crash-path Stopped of a
+	// restart, or the final Stopped when the budget is used up). That delivery runs inside the recover handler of
+	// Invoke/Start: the second panic must be contained too (D26: it killed the program).
+	for _, mode := range []int{0, 1} {
+		var v5, v6 []histParams
+		for _, hs := range []string{"x", "xm", "mxm", "xxm", "mx"} {
+			v5 = append(v5, histParams{Hist: hs, MaxRestarts: 3, Mode: mode, Late: true, Bystander: true, StopPanics: true})
+		}
+		for _, lc := range []string{"1S", "1I"} {
+			v5 = append(v5, histParams{Hist: "m", MaxRestarts: 3, Mode: mode, Late: true, Bystander: true, StopPanics: true, LC: lc})
+		}
+		for _, hc := range []struct {
+			r int
+			h string
+		}{{0, "X"}, {0, "mX"}, {0, "Xm"}, {1, "xX"}, {1, "XmX"}} {
+			v6 = append(v6, histParams{Hist: hc.h, MaxRestarts: hc.r, Mode: mode, Late: true, Bystander: true, StopPanics: true})
+		}
+		Register(&Job{Name: fmt.Sprintf("C05/hist/stopped-handler-panics-after-crash-mode%d", mode), Prop: "C05", Family: "regression:D26 (fixed)", Bound: 1, BoundT: 2, Budget: 40, BudgetT: 600,
+			Desc: fmt.Sprintf("%d histories in which the receiver that just crashed (on a message, in Started, in Initialized) panics once more while it is told Stopped: contained, the restart goes ahead, the queued tail is delivered once and in order, the bystander is undisturbed", len(v5)),
+			Make: func() vsched.Instance { return histInstance(v5, histOracle) }})
+		Register(&Job{Name: fmt.Sprintf("C06/hist/stopped-handler-panics-at-exhaustion-mode%d", mode), Prop: "C06", Family: "regression:D26 (fixed)", Bound: 1, BoundT: 2, Budget: 40, BudgetT: 600,
+			Desc: fmt.Sprintf("%d histories in which the budget-exhausting panic is followed by a panic of the same receiver in its final Stopped handler (or an earlier crash-path Stopped panics): contained, ActorMaxRestartsExceededEvent once, unregistered, later sends dead-letter, the bystander is undisturbed", len(v6)),
+			Make: func() vsched.Instance { return histInstance(v6, histOracle) }})
 	}
 
 	// C06: budget exhaustion. MaxRestarts r, histories with exactly r+1 crashes among <=r+3 symbols.
@@ -701,11 +825,11 @@ func init() {
 	}
 	// C07: one stop request in a stream of messages (clean), two requests (trigger D3).
 	for _, mode := range []int{0, 1} {
-		one := mk(allHists("mPS", 4, func(h string) bool { return countAny(h, "PS") == 1 }), histParams{MaxRestarts: 3, Mode: mode, Late: true, WaitCtx: true})
+		one := mk(allHists("mPS", 4, func(h string) bool { return countAny(h, "PS") == 1 }), histParams{MaxRestarts: 3, Mode: mode, Late: true, WaitCtx: true, Watch: true})
 		Register(&Job{Name: fmt.Sprintf("C07/hist/one-stop-mode%d", mode), Prop: "C07", Bound: 1, BoundT: 2, Budget: 40, BudgetT: 600,
 			Desc: fmt.Sprintf("%d histories over {m,P,S} of length<=4 with exactly one stop request; the driver waits on the context, then probes", len(one)),
 			Make: func() vsched.Instance { return histInstance(one, histOracle) }})
-		two := mk(allHists("mPS", 3, func(h string) bool { return countAny(h, "PS") == 2 }), histParams{MaxRestarts: 3, Mode: mode, Late: true})
+		two := mk(allHists("mPS", 3, func(h string) bool { return countAny(h, "PS") == 2 }), histParams{MaxRestarts: 3, Mode: mode, Late: true, Watch: true, SlowStop: true})
 		Register(&Job{Name: fmt.Sprintf("C07/hist/two-stops-mode%d", mode), Prop: "C07", Family: "regression:D3 (fixed)", Bound: 1, BoundT: 2, Budget: 40, BudgetT: 600,
 			Desc: fmt.Sprintf("%d histories over {m,P,S} of length<=3 with two stop requests", len(two)),
 			Make: func() vsched.Instance { return histInstance(two, histOracle) }})
@@ -717,6 +841,19 @@ func init() {
 		Register(&Job{Name: fmt.Sprintf("C07/hist/crash-then-stop-mode%d", mode), Prop: "C07", Bound: 1, BoundT: 2, Budget: 40, BudgetT: 600,
 			Desc: fmt.Sprintf("%d histories over {m,x,P,S} of length<=4 with one crash and one stop request, the crash in front of the request or behind a non-graceful Stop", len(crashClean)),
 			Make: func() vsched.Instance { return histInstance(crashClean, histOracle) }})
+		var sis []histParams
+		for _, hs := range []string{"P", "S", "mP", "mS", "PP", "X", "mX"} {
+			for _, k := range []int{1, 2} {
+				r := 3
+				if strings.ContainsAny(hs, "X") {
+					r = 0
+				}
+				sis = append(sis, histParams{Hist: hs, MaxRestarts: r, Mode: mode, Late: true, StopInStop: k, Watch: true})
+			}
+		}
+		Register(&Job{Name: fmt.Sprintf("C07/hist/stop-request-during-stopped-handler-mode%d", mode), Prop: "C07", Bound: 1, BoundT: 2, Budget: 40, BudgetT: 600,
+			Desc: fmt.Sprintf("%d histories (stop request, two requests, or a crash beyond max restarts) in which a second party issues Poison/Stop while the receiver is inside its final Stopped handler: that context is not done when the call returns, and is done once the actor is gone", len(sis)),
+			Make: func() vsched.Instance { return histInstance(sis, histOracle) }})
 		var stopPanics []histParams
 		for _, hs := range []string{"P", "mP", "S", "mS", "mPm"} {
 			stopPanics = append(stopPanics, histParams{Hist: hs, MaxRestarts: 3, Mode: mode, Late: true, StopPanics: true})
@@ -734,6 +871,10 @@ func init() {
 			Desc: fmt.Sprintf("%d histories over {m,X,P,S} of length<=3 (MaxRestarts 0,1) in which a stop request is queued behind the panic that exceeds max restarts", len(behindEx)),
 			Make: func() vsched.Instance { return histInstance(behindEx, histOracle) }})
 		crashD4 := mk(allHists("mxP", 3, func(h string) bool { return oneEach(h) && isD4(h) }), histParams{MaxRestarts: 3, Mode: mode, Late: true})
+		// a crash in front of the pill and another one while the restart buffer is drained behind it
+		for _, hs := range []string{"xPmxm", "xPxmm", "mPxmx", "xPmx", "xPxm"} {
+			crashD4 = append(crashD4, histParams{Hist: hs, MaxRestarts: 3, Mode: mode, Late: true, Watch: true})
+		}
 		Register(&Job{Name: fmt.Sprintf("C07/hist/crash-behind-poison-mode%d", mode), Prop: "C07", Family: "regression:D4 (fixed)", Bound: 1, BoundT: 2, Budget: 40, BudgetT: 600,
 			Desc: fmt.Sprintf("%d histories over {m,x,P} of length<=3 in which a message that panics is queued behind a graceful poison pill (crash while draining)", len(crashD4)),
 			Make: func() vsched.Instance { return histInstance(crashD4, histOracle) }})
@@ -754,6 +895,9 @@ func init() {
 					vt = append(vt, histParams{Hist: h, MaxRestarts: r, Mode: mode, Late: true, Delay: r == 1})
 				}
 			}
+		}
+		for _, hs := range []string{"P", "mS", "mPm", "xP"} {
+			vq = append(vq, histParams{Hist: hs, MaxRestarts: 2, Mode: mode, Late: true, StopPanics: true})
 		}
 		for _, hs := range []string{"mxm", "xmm", "mxP", "xmS", "mXm"} {
 			vq = append(vq, histParams{Hist: hs, MaxRestarts: 2, Mode: mode, Late: true, NMW: 1})
